@@ -23,13 +23,24 @@ C07.digit    every `ch - b'0'` in the escape decoder is behind is_ascii_digit(ch
 C07.fast     the fast-path symbol reader stops at exactly the octets the item
              categoriser and Symbol::is_word_char treat as special (plus the
              escape character): fast and slow path agree where a token ends.
+C07.token    every reader method that consumes a token (reads symbols, then
+             ends the token with next_item) checks require_token first, on
+             every path from its entry and from a previous token's end: at a
+             line feed or the end of input it reports an error instead of
+             reading on into the next entry or past the buffer.
+C07.drain    typestate of the reader's cursor: next_item() is only called when
+             the current token has been read to its end (the last full symbol
+             read returned None, or the item category was tested to be None /
+             LineFeed), never right after a fast-path reader stopped early or
+             right after require_token(): the "token not completely read"
+             assertion cannot fire from the reader's own call sequences.
 C07.panic    no unwrap/expect of a parse / conversion error and no explicit
              panic macro under a branch on file content in the reader.
 """
 import re
 
 from mirlib import BranchFacts, strip, deep_strip, show, walk, const_value
-from rulelib import bool_facts, control_terms, facts_at, outcome_facts, return_assignments
+from rulelib import bool_facts, control_terms, facts_at, outcome_facts, return_assignments, flow_states
 import c03
 
 Z = "zonefile::inplace::"
@@ -46,6 +57,8 @@ def run(ctx):
     rule_cat(ctx, F)
     rule_inherit(ctx, F)
     rule_panic(ctx, F)
+    rule_token(ctx, F)
+    rule_drain(ctx, F)
     rule_digit(ctx, F)
     rule_fast(ctx, F)
 
@@ -261,6 +274,188 @@ def rule_panic(ctx, F):
     ctx.ob(R, "zonefile::inplace", "scanned", True, nontrivial=False,
            detail="%d reader bodies scanned, %d unwrap/panic sites examined" % (scope, n))
     ctx.call_sites += n
+
+
+SYMREAD = re.compile(r"SourceBuf::(next_symbol|next_ascii_symbol|next_char_symbol)$")
+
+
+def rule_token(ctx, F):
+    """Pairing rule over the reader's token consumers.  SourceBuf hands out
+    symbols of the current token; at a line feed or at the end of the input
+    there is no token and the symbol readers return None *without* an error.
+    A consumer that goes on to next_item() from there steps into the next
+    entry.  Every consumer therefore starts each token with require_token()
+    (the 8 siblings confirmed by reading); the rule requires it of all."""
+    R = "C07.token"
+    ctx.floor(R, 9)
+    for p, b in sorted(F.bodies.items()):
+        if not re.match(r"^<?zonefile::inplace::EntryScanner", p) or "::test" in p or b.kind == "closure":
+            continue
+        reads = [bi for bi, t in b.calls() if SYMREAD.search(t["fn"] or "")]
+        ends = [bi for bi, t in b.calls() if re.search(r"SourceBuf::next_item$", t["fn"] or "")]
+        if not reads or not ends:
+            continue
+        req = [bi for bi, t in b.calls() if re.search(r"SourceBuf::require_token$", t["fn"] or "")]
+        # the other accepted idiom: a branch establishing that the current item is a token
+        guard = set()
+        bf = BranchFacts(b, F)
+        for sw in b.reachable_blocks():
+            if b.blocks[sw]["t"]["k"] != "switch":
+                continue
+            for lab, (tt, v) in bf.edge_facts(sw).items():
+                s = show(deep_strip(tt))
+                if v is True and re.search(r"PartialEq>::eq\(\S*\.cat, adt:\S*ItemCat:(Quoted|Unquoted)\{\}\)$", s):
+                    guard.add((sw, lab))
+                elif isinstance(v, tuple) and v[0] == "variant" and v[1] in ("Quoted", "Unquoted") and s.endswith(".cat"):
+                    guard.add((sw, lab))
+        bad = None
+        if 0 not in req and b.reach_from(0, removed_blocks=req, removed_edges=guard) & set(reads):
+            bad = "from its entry"
+        else:
+            for e in ends:
+                if e not in req and b.reach_from(e, removed_blocks=req, removed_edges=guard) & set(reads) - {e}:
+                    bad = "after the end of the previous token"
+                    break
+        ctx.ob(R, b, "require_token before reading symbols", bad is None,
+               "%s reads token symbols %s without require_token(): at a line feed or the end of the input it "
+               "continues into the next entry / past the buffer instead of returning an error"
+               % (p.split("::")[-1], bad), b.where(reads[0]),
+               detail="%d symbol read(s), %d next_item, %d require_token, %d branch(es) on the item being a token"
+                      % (len(reads), len(ends), len(req), len(guard)))
+
+
+FULLREAD = re.compile(r"SourceBuf::next_symbol$")
+# helpers whose *result* tells the caller whether the token ended (checked against their own bodies below)
+SUMMARISED = {"convert_label": ("None", "Some(false)")}
+
+
+def _core_call(t):
+    """the call a fact is about, looking through `?`, casts and field projections"""
+    for s in walk(deep_strip(t)):
+        if s[0] == "call" and s[1] and not s[1].endswith("Try::branch"):
+            return s
+    return None
+
+
+def _drain_flow(b, F, consumers):
+    movers = [bi for bi, t in b.calls() if re.search(r"SourceBuf::(next_item|next_\w*symbol|_next_symbol|skip_\w+)$", t["fn"] or "")
+              or (t["fn"] or "") in consumers or (t["fn"] or "").split("::")[-1] in SUMMARISED]
+    def on_call(bb, t, st):
+        fn = t["fn"] or ""
+        if re.search(r"SourceBuf::next_item$", fn):
+            return "unknown"
+        if re.search(r"SourceBuf::require_token$", fn) or SYMREAD.search(fn):
+            return "open"
+        last = fn.split("::")[-1]
+        if last in SUMMARISED and "zonefile::inplace::EntryScanner" in fn:
+            return "open"
+        if fn in consumers:
+            return "unknown"          # consumes whole tokens and ends them itself (checked in its own body)
+        return st
+
+    def on_edge(bb, lab, fact, st):
+        if fact is None:
+            return st
+        tt, v = fact
+        s = show(deep_strip(tt))
+        # the item category was tested
+        m = re.search(r"PartialEq>::eq\(\S*\.cat, adt:\S*ItemCat:(\w+)\{\}\)$", s)
+        if m and isinstance(v, bool):
+            # a comparison made before the cursor moved on (`let is_quoted = cat == Quoted` tested later)
+            # says nothing about the item now
+            c = _core_call(tt)
+            cb = c[5] if c is not None and len(c) > 5 and isinstance(c[5], int) else None
+            if cb is None:
+                return st
+            after = b.reach_from(cb) - {cb}
+            if any(mb in after and bb in b.reach_from(mb) for mb in movers):
+                return st
+            if m.group(1) in ("None", "LineFeed"):
+                return "drained" if v else st
+            return "open" if v else st
+        if s.endswith(".cat") and isinstance(v, tuple):
+            if v[0] == "variant":
+                return "drained" if v[1] in ("None", "LineFeed") else "open"
+            if v[0] == "notvariant" and set(v[1]) >= {"Quoted", "Unquoted"}:
+                return "drained"
+            return st
+        # the result of a full symbol read / a summarised helper was tested
+        none = None
+        subj = strip(tt, calls=False)
+        if v == ("variant", "None"):
+            none = True
+        elif v == ("variant", "Some"):
+            none = False
+        elif isinstance(v, bool) and subj[0] == "call" and subj[1] and re.search(r"::(is_some|is_none)$", subj[1]) and subj[3]:
+            none = v if subj[1].endswith("is_none") else (not v)
+            subj = subj[3][0]
+        c = _core_call(subj)
+        if c is None:
+            return st
+        last = c[1].split("::")[-1]
+        if none is not None and FULLREAD.search(c[1]):
+            return "drained" if none else "open"
+        if last in SUMMARISED and "EntryScanner" in c[1]:
+            if none is True and "None" in SUMMARISED[last]:
+                return "drained"
+            if isinstance(v, bool) and s.endswith(" as Some).0") and ("Some(%s)" % ("true" if v else "false")) in SUMMARISED[last]:
+                return "drained"
+        return st
+
+    return flow_states(b, F, "unknown", on_call, on_edge)
+
+
+def rule_drain(ctx, F):
+    R = "C07.drain"
+    ctx.floor(R, 14)
+    bodies = {p: b for p, b in F.bodies.items()
+              if re.match(r"^<?zonefile::inplace::EntryScanner", p) and "::test" not in p and b.kind != "Closure"}
+    consumers = {p for p, b in bodies.items()
+                 if any(re.search(r"SourceBuf::next_item$", t["fn"] or "") for _, t in b.calls())
+                 and any(SYMREAD.search(t["fn"] or "") or (t["fn"] or "").split("::")[-1] in SUMMARISED for _, t in b.calls())}
+    for p in sorted(consumers):
+        b = bodies[p]
+        at = _drain_flow(b, F, consumers)
+        if at is None:
+            ctx.undecided_item(R, p, "configuration budget exhausted")
+            continue
+        k = 0
+        for bi, t in b.calls():
+            if not re.search(r"SourceBuf::next_item$", t["fn"] or "") or bi not in at:
+                continue
+            k += 1
+            ctx.ob(R, b, "next_item#%d only after the token was read to its end" % k, "open" not in at[bi],
+                   "%s calls next_item() on a path where the current token may not have been read to its end "
+                   "(after require_token or a fast-path read that stopped early, with no full read returning None and "
+                   "no test of the item category in between): the reader's 'token not completely read' assertion "
+                   "panics on such input" % p.split("::")[-1], b.where(bi),
+                   detail="states reaching the call: %s" % ", ".join(sorted(at[bi])))
+    # the summaries the callers rely on
+    for name, shapes in sorted(SUMMARISED.items()):
+        hb = [b for p, b in bodies.items() if p.split("::")[-1] == name]
+        if not ctx.anchor(R, "EntryScanner::%s" % name, len(hb) == 1):
+            continue
+        b = hb[0]
+        at = _drain_flow(b, F, consumers)
+        found = {}
+        for bi, si, kind, term in return_assignments(b):
+            if kind != "Ok" or term is None or at is None:
+                continue
+            s = show(term)
+            shape = None
+            if s.endswith("Option:None{}}"):
+                shape = "None"
+            elif s.endswith("Option:Some{0}}"):
+                shape = "Some(false)"
+            elif s.endswith("Option:Some{1}}"):
+                shape = "Some(true)"
+            if shape in shapes:
+                found.setdefault(shape, []).append(at.get(bi, set()) <= {"drained"})
+        for shape in shapes:
+            ctx.ob(R, b, "returns %s only at the end of the token" % shape, bool(found.get(shape)) and all(found[shape]),
+                   "%s returns %s on a path where the token has not been read to its end (callers go on to next_item())"
+                   % (name, shape) if found.get(shape) else "%s has no return site of shape Ok(%s) any more: the summary "
+                   "its callers are checked against is stale" % (name, shape), b.where())
 
 
 AUDIT = {
